@@ -235,6 +235,10 @@ func checkC03(c *Ctx, r *Report) {
 					if b, isC := constBool(st.Val); isC {
 						st := st
 						sets = append(sets, setting{b, st, func() []fact { return factsAt(f, st) }})
+					} else if call, isCall := st.Val.(*ssa.Call); isCall {
+						if exp, known := expiredWhenTrueF(call, "Expires"); known && exp {
+							ok, polarity = true, "stale is assigned the comparison itself"
+						}
 					}
 				}
 			}
